@@ -872,6 +872,24 @@ func (ex *Exec) enterLoop(fr *Frame, li *loopInfo, states []*State, conds []Term
 		cv := ex.vc.oblige("vacuity", fr.name(fmt.Sprintf("vacuity:loop%d.cover", li.ord)), reach, False, "")
 		cv.ExpectSat = true
 		cv.Descr = "the loop invariant (together with everything assumed before) is satisfiable at the loop head"
+		// ... and at a later iteration too: a head that is only reachable with idx == 0 would make the inductive step
+		// of every later iteration hold vacuously (skipped where the loop has no iteration count)
+		func() {
+			saved := map[string]bool{}
+			for k, v := range ex.vc.Assumptions {
+				saved[k] = v
+			}
+			defer func() {
+				if recover() != nil {
+					ex.vc.Assumptions = saved
+				}
+			}()
+			idx := ex.loopIdx(fr, li, st)
+			ex.vc.Assumptions = saved
+			later := ex.vc.oblige("vacuity", fr.name(fmt.Sprintf("vacuity:loop%d.cover-later", li.ord)), And(reach, Not(Eq(idx, IntLit(0)))), False, "")
+			later.ExpectSat = true
+			later.Descr = "the loop head is reachable at a later iteration (idx != 0) under the invariants"
+		}()
 	}
 	if ls.Decreases != nil {
 		env := ex.loopEnv(fr, li, st)
